@@ -98,6 +98,10 @@ type Exec struct {
 	TxEvents               [][]abci.Event
 	// PostProcess may re-tag or filter the discrepancies of one action (scenario-specific attribution)
 	PostProcess func(e *Exec, discs []Disc) []Disc
+	// Degraded: implementation and reference model have disagreed somewhere on the way here, so the model
+	// can no longer be the judge; only model-independent oracles (panics, registered invariants, books,
+	// escrow backing) are reported from here on
+	Degraded bool
 	// SkipVisitSteps: number of coming actions after which Visit is not run (scenarios whose long
 	// prefix only builds the state of interest)
 	SkipVisitSteps int
@@ -259,7 +263,12 @@ func (e *Exec) deliver(tx model.Tx) (TxObs, []Disc, bool) {
 			Sig:    map[string]string{"kind": k, "reason": "wrong_signer"}})
 		diverged = true
 	case r.OK() && !obs.AnteOK:
-		discs = append(discs, disc("harness.ante_detect", "tx succeeded but the payer's sequence did not advance: %+v", tx))
+		// a transaction that takes effect without its signer's sequence advancing has not been through the
+		// pre-execution stage (signature, sequence, fee): it can be replayed, and nothing proves who sent it
+		k := model.Flatten(tx.Msgs)[0].Kind
+		discs = append(discs, Disc{Kind: "tx.accept_unexpected:" + k + ":pre_execution_checks_skipped",
+			Detail: fmt.Sprintf("transaction succeeded although no signer's sequence advanced (signature / sequence / fee checks did not run); tx %s", txJSON(tx)),
+			Sig:    map[string]string{"kind": k, "reason": "pre_execution_checks_skipped"}})
 		diverged = true
 	case r.OK() && fail != nil:
 		discs = append(discs, Disc{Kind: "tx.accept_unexpected:" + fail.Kind + ":" + fail.Reason,
@@ -313,6 +322,16 @@ func (e *Exec) deliver(tx model.Tx) (TxObs, []Disc, bool) {
 	}
 	obs.Res = mc.TxRes{} // events and logs are not needed past the per-transaction oracles
 	return obs, discs, diverged
+}
+
+// modelIndependent: discrepancy kinds that are judged on the implementation's own state and behaviour.
+func modelIndependent(kind string) bool {
+	for _, p := range []string{"panic:", "tx.panic", "invariant:", "ent.books", "str.escrow", "str.sustain", "harness."} {
+		if strings.HasPrefix(kind, p) {
+			return true
+		}
+	}
+	return false
 }
 
 func isNested(tx model.Tx) bool {
@@ -425,7 +444,15 @@ func (e *Exec) Run(a *Action, oracle bool) (StepObs, []Disc) {
 	if e.PostProcess != nil {
 		discs = e.PostProcess(e, discs)
 	}
-
+	if e.Degraded {
+		kept := discs[:0]
+		for _, d := range discs {
+			if modelIndependent(d.Kind) {
+				kept = append(kept, d)
+			}
+		}
+		discs = kept
+	}
 	return obs, discs
 }
 
